@@ -11,8 +11,28 @@ ASSUMPTIONS = ["one action per quiescent point", "crash images restricted to 'ke
 TAGS = ("C04",)
 
 
+CTL = {"me": "me.example\n", "locals": "loc.example\n"}
+
+
+def fx(msgs, scripts, tape, actions, ctl=None, limits=(120, 120)):
+    return {"controls": dict(CTL, **(ctl or {})), "limits": list(limits), "messages": msgs, "scripts": scripts, "bscript": "", "texts": ["ok"],
+            "tape": tape, "actions": actions, "mode": {"kind": "none"}}
+
+
+# fully swept in every run (all crash points with image kept, all single faults): a delivery that stays in flight while the clock is
+# stepped past the 123 s system-failure retry and an ALRM arrives, then restarts - the situations in which a second job for the same
+# message could be opened
+FULLY_SWEPT = [
+    fx([{"sender": "s@rem.example", "rcpts": ["r@rem.example"], "body": "x\n"}], {"0:0": "K"},
+       [1, 0, 1, 0, 1, 0, 3, 0, 0, 0], ["answer", "inject", "advance", "alrm"]),
+    fx([{"sender": "s@rem.example", "rcpts": ["joe@loc.example", "ann@loc.example", "joe@loc.example"], "body": "x\n"}], {"0:0": "ZK", "0:1": "K", "0:2": "ZZK"},
+       [3, 0, 0, 0, 2, 0, 0, 0, 6, 0], ["answer", "inject", "advance", "alrm", "term"], limits=(2, 120)),
+]
+
+
 def run(ctx):
-    q.search(ctx, "C04", TAGS, 60, 700, sweep={"crash_kept": 4})
+    q.search(ctx, "C04", TAGS, 0, 0, sweep={"all": True, "kept_only": True}, fixed=FULLY_SWEPT)
+    q.search(ctx, "C04", TAGS, 50, 700, sweep={"crash_kept": 4, "fault": 3})
 
 
 def replay(ctx, path):
